@@ -5,6 +5,9 @@ R2_FIRST_OWN = set("C01-1 C02-3 C03-1 C03-2 C03-3 C04-2 C05-2 C08-2 C10-1 C10-2 
 R2_FIRST_NONE = set("C05-1 C06-3 C07-1 C08-3 C10-3 C12-3 C15-3 C16-1".split())
 R3_FIRST_OWN = set("C01-1 C01-2 C01-3 C02-1 C02-2 C02-3 C03-1 C03-2 C03-3 C04-1 C04-3 C05-2 C05-3 C06-1 C06-2 C08-1 C08-2 C08-3 C09-1 C09-2 C11-1 C11-2 C12-1 C12-2 C13-1 C13-2 C13-3 C14-1 C14-3 C15-1 C15-3 C17-1 C17-2 C17-3 C18-2 C19-1".split())
 R3_FIRST_NONE = set("C14-2 C18-1 C18-3 C19-2 C19-3".split())
+R4_MISSED_OWN = set("C04-2 C06-2 C08-2 C13-2 C18-2".split())  # caught by other properties' checks only
+R4_MISSED_ALL = set("C07-1 C10-2 C12-1 C14-1 C18-1".split())
+R4_UNRESOLVED = set("C04-1 C11-2 C16-1".split())  # reported only as an unresolved role / an expression the evaluator could not decide
 old = {}
 if os.path.exists('/verif/seeded/INDEX.md'):
     for l in open('/verif/seeded/INDEX.md'):
@@ -19,6 +22,10 @@ for mp in sorted(glob.glob('/verif/seeded/*/meta.json')):
         if '-r3-' in name:
             k = name.replace('-r3-', '-')
             m['first_run'] = 'caught' if k in R3_FIRST_OWN else ('MISSED by every check' if k in R3_FIRST_NONE else 'MISSED by its own property (caught by others)')
+        elif '-r4-' in name:
+            k = name.replace('-r4-', '-')
+            m['first_run'] = ('MISSED by every check' if k in R4_MISSED_ALL else 'MISSED by its own property (caught by others)' if k in R4_MISSED_OWN
+                              else 'reported as undecided only (no rule decided it)' if k in R4_UNRESOLVED else 'caught')
         elif '-r2-' in name:
             k = name.replace('-r2-', '-')
             m['first_run'] = 'caught' if k in R2_FIRST_OWN else ('MISSED by every check' if k in R2_FIRST_NONE else 'MISSED by its own property (caught by others)')
@@ -37,7 +44,7 @@ n = len(rows)
 caught_first = sum(1 for r in rows if '| caught |' in r)
 hdr = f"""# Seeded changes (written independently by sub-agents; none is committed to /repo)
 
-Each directory holds `patch.diff` (apply with `git -C /repo apply`, undo with `git -C /repo checkout -- .`), `demo_test.go` (fails with the patch, passes without; header says where it goes), where needed `delay.patch` / `delay_baseline.patch` (a sleep that forces the schedule, on the changed and on the unchanged code) and `meta.json` (property broken, what it needs to manifest, what was run, which checks fire). Patches are kept rebased on the current /repo HEAD (the `fix:` commits); `<id>-r2-<n>` are the second round.
+Each directory holds `patch.diff` (apply with `git -C /repo apply`, undo with `git -C /repo checkout -- .`), `demo_test.go` (fails with the patch, passes without; header says where it goes), where needed `delay.patch` / `delay_baseline.patch` (a sleep that forces the schedule, on the changed and on the unchanged code) and `meta.json` (property broken, what it needs to manifest, what was run, which checks fire). Patches are kept rebased on the current /repo HEAD (the `fix:` commits); `<id>-r2-<n>`, `-r3-`, `-r4-` are the later rounds.
 
 `first run` = did the check of the property the change targets report it when the change was first evaluated; `now` = after the checks were strengthened (tools/seed_recheck.py). {n} changes: {caught_first} caught by their own property's check on first evaluation; all {n} now. The thorough tier replays every one of them as an overlay (self-test `seeded/<id>`).
 
